@@ -498,6 +498,11 @@ class Checker:
             if t == 'M':
                 if pend is not None and named(pend[1]): self.v('C16', 'method|record-without-the-callback|' + METH.get(pend[0], '?'), op, pend)
                 pend = (a[0], a[1]); self.stats['C16.method-records'] += 1
+                if a[0] in (16, 17):
+                    # planSucceeded / planFailed records (also those of heads without a user-defined handler: verbose logging, anonymous heads)
+                    # follow the plan-status record of the same region, and name the same outcome
+                    self.stats['C16.plan-notification-records-matched-with-plan-status-records'] += 1
+                    if wrec != (a[1], a[0] - 16): self.v('C16', 'plan|planSucceeded-or-planFailed-record-contradicts-the-plan-status-record', op, {'method-record': a, 'plan-status-record': wrec})
                 if pend in self.masked:
                     # the property demands a record for every user-defined callback, not silence about inherited ones
                     # (the library's static_cast to Head::* makes inherited react/query handlers look overridden): counted, not judged
